@@ -63,7 +63,14 @@ EVENTS = [
     ("split", [("last", 0.5), ("first", "1/3"), ("last", 0.25), ("last", 0.5 + 1e-10)]),
     ("split", []),
     ("clean", []),
+    # rational nodes with large denominators: the junction needs more digits than the
+    # library's coordinate type keeps (Point2D limits denominators to 10**9)
+    ("split", [("first", "123457/1000000")]),
+    ("split", [("last", "654321/1000000"), ("first", "3/7")]),
+    ("split", [("first", "3/7")]),
 ]
+CLEAN = 31
+BIGDEN = {32, 33}
 
 
 def ename(ev):
@@ -78,6 +85,7 @@ def num(v):
 
 CURVES = (
     [["L", "P.%s#%s" % (n, v)] for v in ("int", "frac", "float") for n in ("triA", "L", "U")]
+    + [["V", [["617/5000", "1/5"], ["37071/10000", "13333/10000"], ["3/2", "17/4"]]], ["V", [[0, 0], [2, 4], [5, 1]]]]
     + [["L", "Q.c4"], ["L", "Q.c8"], ["L", "Q.lens"], ["L", "Q.blob"], ["L", "Q.rsq"], ["L", "Q.c5@cw"]]
 )
 
@@ -169,6 +177,10 @@ def invariant_for(e):
         cur = rg.jordan_curve(J)
         # exact only when data and every split parameter of the history are rational
         exact = rational and orig.is_poly and not any(isinstance(num(v), float) for k in hist for _, v in EVENTS[k][1])
+        # coordinates are kept with denominators <= 10**9: junctions of big-denominator nodes
+        # (or of repeated 3/7 splits) are rounded by <= 1e-18
+        if exact and any(k in BIGDEN for k in hist) or sum(1 for k in hist if k == 34) > 2:
+            exact = False
         ptol = F(0) if exact else (size / 10**9 if orig.is_poly else size / 10**6)
         # closedness and shared junction objects
         n = len(J.segments)
